@@ -144,9 +144,13 @@ class SpecModel:
         if fdom is None:
             w = _weights(self.dom, F.shape[-1])
         else:
-            x = _equalise(self.dom, fdom)
+            fd = np.asarray(fdom, float)
+            if np.any(np.diff(fd) < 0):          # not ascending: pair up and sort
+                order = np.argsort(fd, kind="stable")
+                fd, s = fd[order], s[..., order]
+            x = _equalise(self.dom, fd)
             F = _interp_rows(x, self.dom, F)
-            s = _interp_rows(x, np.asarray(fdom, float), s)
+            s = _interp_rows(x, fd, s)
             w = _weights(x, len(x))
         if s.ndim == 1:
             return (F * s) @ w
@@ -234,6 +238,14 @@ def make_pool(rng: PlanRng):
         pool["bgF2"] = sig(rng.uniform(0.5, 2.0, n_fd))
         pool["sigF2"] = sig(rng.uniform(0.0, 2.0, (2, n_fd)))
         # make sure every size has its bound / intensity payloads (c14 made them for `ks` only)
+    if meta["kind"] != "step":
+        # the first foreign domain once more, reported from long to short wavelengths (an
+        # instrument's own order): the same spectra, samples reversed with their domain
+        pool["FDd"] = np.array(pool["FD"][::-1], copy=True)
+        pool["SF0d"] = np.array(pool["SF0"][:, ::-1], copy=True)
+        meta["n_src"]["SF0d"] = meta["n_src"]["SF0"]
+        pool["bgFd"] = np.array(pool["bgF"][::-1], copy=True)
+        pool["sigFd"] = np.array(pool["sigF"][:, ::-1], copy=True)
     ks = sorted(set(meta["n_src"].values()))
     for k in ks:
         if f"x{k}a" not in pool:
@@ -278,6 +290,11 @@ def random_mutator(rng, sym, meta, allow_reject=False):
         elif op["m"] == "register_background_adaptation" and op.get("domain") == "FD" \
                 and rng.coin(0.5):
             op.update(background="bgF2", domain="FD2")
+        elif op["m"] == "register_system" and op.get("domain") == "FD" and rng.coin(0.4):
+            op.update(sources="SF0d", domain="FDd")
+        elif op["m"] == "register_background_adaptation" and op.get("domain") == "FD" \
+                and rng.coin(0.4):
+            op.update(background="bgFd", domain="FDd")
     return op
 
 
@@ -461,7 +478,7 @@ def execute(plan):
         kind = meta["kind"]
         sigs = [("sig", None), ("sig1", None)]
         if kind != "step":
-            sigs += [("sigF", "FD"), ("sigF2", "FD2"), ("sig", "FD3")]
+            sigs += [("sigF", "FD"), ("sigF2", "FD2"), ("sig", "FD3"), ("sigFd", "FDd")]
         for sname, dname in sigs:
             s = pool[sname]
             d = None if dname is None else pool[dname]
